@@ -2,7 +2,7 @@ from copy import copy
 
 import sqlalchemy as sa
 from sqlalchemy_utils import get_primary_keys, identity
-from .operation import Operations
+from .operation import Operation, Operations
 from .utils import (
     end_tx_column_name,
     version_class,
@@ -357,9 +357,54 @@ class UnitOfWork(object):
         :param version_obj:
             Version object to assign the attribute values to
         """
+        self.load_row_switched(parent_obj, version_obj)
         for prop in versioned_column_properties(parent_obj):
             try:
                 value = getattr(parent_obj, prop.key)
             except sa.orm.exc.ObjectDeletedError:
                 value = None
             setattr(version_obj, prop.key, value)
+
+    def load_row_switched(self, parent_obj, version_obj):
+        """
+        Load the attributes a row-switched object was never given.
+
+        A pending object that takes over the row of an object deleted in the
+        same flush is written with an UPDATE that only sets the attributes
+        the new object was given; the other columns keep the values of the
+        old row, but read as None on the object (until it is expired). Their
+        stored values are loaded into the object, so that this version and
+        the versions of later flushes record what the row holds.
+
+        :param parent_obj: Parent object the version is created for
+        :param version_obj: Version object, its operation type already set
+        """
+        state = sa.inspect(parent_obj)
+        if not (
+            state.pending and
+            version_obj.operation_type == Operation.UPDATE
+        ):
+            return
+        props = [
+            prop for prop in versioned_column_properties(parent_obj)
+            if prop.key in state.unloaded
+        ]
+        if not props:
+            return
+        mapper = state.mapper
+        criteria = [
+            column == value for column, value in zip(
+                mapper.primary_key,
+                mapper.primary_key_from_instance(parent_obj)
+            )
+        ]
+        row = self.version_session.execute(
+            sa.select(*[prop.columns[0] for prop in props])
+            .select_from(mapper.selectable)
+            .where(sa.and_(*criteria))
+        ).first()
+        if row is not None:
+            for prop, value in zip(props, row):
+                sa.orm.attributes.set_committed_value(
+                    parent_obj, prop.key, value
+                )
